@@ -257,7 +257,11 @@ def reject_cases(draw, tier):
         off = draw(st.sampled_from([Fraction(1, 2), Fraction(1, 10), Fraction(1, 2000), Fraction(1, 4)])) / (pv * U[pu])
     n = draw(st.integers(1, 6))
     tr = draw(F.traces(vs, n=n))
-    return {'formula': f, 'vars': vs, 'trace': tr, 'period': [pv, pu], 'unit': du, 'which': which, 'off': [off.numerator, off.denominator], 'mode': mode}
+    # which bound(s) of the chosen interval leave the grid: the upper one, the lower one, or both by the same amount
+    # (the width of the window stays a multiple of the period)
+    shift = draw(st.sampled_from(['upper', 'upper', 'lower', 'both', 'both']))
+    return {'formula': f, 'vars': vs, 'trace': tr, 'period': [pv, pu], 'unit': du, 'which': which, 'off': [off.numerator, off.denominator], 'mode': mode,
+            'shift': shift}
 
 
 def check_reject(case):
@@ -265,7 +269,7 @@ def check_reject(case):
     vs = list(case['vars'])
     mode = case['mode']
     tr = {v: [float(x) for x in case['trace'][v]] for v in vs}
-    labels = ['mode:' + mode]
+    labels = ['mode:' + mode, 'off-grid:' + case.get('shift', 'upper')]
     timed = [s for s in F.subterms(f) if s[0] in ('tun', 'tbin')]
     if not timed:
         return DISCARD('no-bound', labels)
@@ -288,7 +292,13 @@ def check_reject(case):
         count[0] += 1
         da, db = Fraction(a * pn), Fraction(b * pn)
         if idx == target:
-            db = db + off * pn        # upper bound off the sampling grid (still >= lower bound)
+            shift = case.get('shift', 'upper')
+            if shift == 'lower' and da + off * pn > db:
+                shift = 'both'
+            if shift in ('upper', 'both'):
+                db = db + off * pn        # upper bound off the sampling grid (still >= lower bound)
+            if shift in ('lower', 'both'):
+                da = da + off * pn
         ta, tb = None, None
         for u in UNITS:
             ta = ta or (decimal_text(da / U[u]) and (decimal_text(da / U[u]), u))
